@@ -4,6 +4,7 @@ import PromProofs.WalRoundtrip
 import PromProofs.WalLayout
 import PromProofs.WalLiveSim
 import PromProofs.WalLiveToks
+import PromProofs.WalTruncate
 /-
   C13 — The write-ahead log returns exactly the records written.
   Property theorems only; the model is PromModel/Tsdb/WalFrame.lean, helper lemmas are in
@@ -148,5 +149,132 @@ theorem live_reader_small_witness :
     liveRun 8 crc LState.init [] [s0.take 5, (s0.drop 5).take 8, s0.drop 13] =
       [([], .eof), ([], .eof), ([[1, 2, 3], []], .eof)] ∧
     liveRun 8 crc LState.init [] [s1.take 7, s1.drop 7] = [([], .eof), ([[9]], .eof)] := by decide
+
+/-! ### Truncation (the corollary C04 builds on)
+
+  A log cut at an arbitrary byte.  Two readers matter: the plain `Reader` over the raw bytes (what
+  `Repair` uses) and the `Reader` over `segmentBufReader` (`readAll`; what `Head.Init`/checkpoints use),
+  which pads a segment whose length is not a multiple of the page size with zeros.  For the plain reader
+  the result is a pure prefix of the records written.  For the zero-padding reader it is NOT: the zeros
+  complete a fragment whose header was cut, and with `crc [] = 0` (true of CRC-32C, `crc32c_nil`)
+  `<type> 00 00 | 00 00 00 00` is a valid empty fragment.  The exact truth, proved for every checksum
+  function (no detection hypothesis), is `truncate_prefix`: a prefix of the records written, followed by
+  at most ONE extra record `q ++ zeros m` where `q` is a prefix of the next record written — a phantom
+  empty record (`truncate_phantom_witness`) or a record that lost its last fragment
+  (`truncate_mangled_witness`); never anything after it, never a record unrelated to the next one. -/
+
+/-- **Truncation, plain reader**: the first `n` bytes of the log (any `n`) read as a prefix of the records
+    written — whole records only. -/
+theorem truncate_prefix_plain (ps pps : Nat) (crc : Crc) (hps : WF ps) (batches : List (List Bytes))
+    (n : Nat) :
+    (rloop ps crc RState.init
+      ((segStream ps (segments ps (logAll ps pps crc batches))).take n)).1 <+: batches.flatten :=
+  plain_truncate_prefix ps pps crc hps.1 hps.2 batches n
+
+/-- **Truncation, zero-padding reader.** The log directory cut in segment `k` at byte `len` (earlier
+    segments whole, later ones gone; `truncSegs`), read with `readAll`: exactly the first `j` records
+    written, then nothing or ONE extra record `q ++ zeros m` with `q` a prefix of record `j`.
+    Unconditional in `crc`, `pps`, the batches, `k` and `len`. -/
+theorem truncate_prefix (ps pps : Nat) (crc : Crc) (hps : WF ps) (batches : List (List Bytes))
+    (k len : Nat) (hk : k < (segments ps (logAll ps pps crc batches)).length) :
+    ∃ j extra, (readAll ps crc (truncSegs (segments ps (logAll ps pps crc batches)) k len)).1 =
+        batches.flatten.take j ++ extra ∧
+      (extra = [] ∨ ∃ r q m, batches.flatten[j]? = some r ∧ q <+: r ∧ extra = [q ++ zeros m]) :=
+  readAll_truncSegs ps pps crc hps.1 hps.2 batches k len hk
+
+/-- The same for a cut at byte `n` of the concatenated segment files followed by `z` zero bytes. -/
+theorem truncate_prefix_stream (ps pps : Nat) (crc : Crc) (hps : WF ps) (batches : List (List Bytes))
+    (n z : Nat) :
+    ∃ j extra, (rloop ps crc RState.init
+        ((segStream ps (segments ps (logAll ps pps crc batches))).take n ++ zeros z)).1 =
+        batches.flatten.take j ++ extra ∧
+      (extra = [] ∨ ∃ r q m, batches.flatten[j]? = some r ∧ q <+: r ∧ extra = [q ++ zeros m]) :=
+  stream_cut_shape ps pps crc hps.1 hps.2 batches n z
+
+/-- Weaker but handy form: a prefix of the records written plus at most one extra record. -/
+theorem truncate_at_most_one_extra (ps pps : Nat) (crc : Crc) (hps : WF ps) (batches : List (List Bytes))
+    (k len : Nat) (hk : k < (segments ps (logAll ps pps crc batches)).length) :
+    ∃ pre extra, (readAll ps crc (truncSegs (segments ps (logAll ps pps crc batches)) k len)).1 = pre ++ extra ∧
+      pre <+: batches.flatten ∧ extra.length ≤ 1 :=
+  readAll_truncSegs_one_extra ps pps crc hps.1 hps.2 batches k len hk
+
+/-- Phantom empty record: one record `[5,6,7]`, the file cut after its first byte; for EVERY checksum
+    with `crc [] = 0` the zero-padding reader returns one empty record that was never written, no error. -/
+theorem truncate_phantom_witness (crc : Crc) (hc : crc [] = 0) :
+    segments 16 (logAll 16 1 crc [[[5, 6, 7]]]) = [frame crc recFull [5, 6, 7] ++ zeros 6] ∧
+    readAll 16 crc (truncSegs [frame crc recFull [5, 6, 7] ++ zeros 6] 0 1) = ([[]], .eof 16) ∧
+    ([] : Bytes) ∉ [[(5 : UInt8), 6, 7]] :=
+  padded_truncation_phantom_witness crc hc
+
+/-- Mangled record: one 12-byte record over two 16-byte pages, the file cut one byte into the header of
+    its `last` fragment; for EVERY checksum with `crc [] = 0` the zero-padding reader returns, without
+    error, the 9-byte record `[1..9]` that was never written. -/
+theorem truncate_mangled_witness (crc : Crc) (hc : crc [] = 0) :
+    segments 16 (logAll 16 2 crc [[[1, 2, 3, 4, 5, 6, 7, 8, 9, 10, 11, 12]]]) =
+      [frame crc recFirst [1, 2, 3, 4, 5, 6, 7, 8, 9] ++ (frame crc recLast [10, 11, 12] ++ zeros 6)] ∧
+    readAll 16 crc (truncSegs
+      [frame crc recFirst [1, 2, 3, 4, 5, 6, 7, 8, 9] ++ (frame crc recLast [10, 11, 12] ++ zeros 6)] 0 17) =
+      ([[1, 2, 3, 4, 5, 6, 7, 8, 9]], .eof 32) :=
+  padded_truncation_mangled_witness crc hc
+
+/-- CRC-32C of the empty string is 0, so both witnesses apply to the real checksum. -/
+theorem crc32c_empty : crc32c [] = 0 := crc32c_nil
+
+/-- The naive statement — "the zero-padding reader returns a prefix of the records written, possibly
+    followed by empty records" — as a Prop … -/
+def truncate_pure_prefix_full : Prop :=
+  ∀ (ps pps : Nat) (crc : Crc), WF ps → ∀ (batches : List (List Bytes)) (k len : Nat),
+    k < (segments ps (logAll ps pps crc batches)).length →
+    ∃ m, (readAll ps crc (truncSegs (segments ps (logAll ps pps crc batches)) k len)).1 <+:
+      batches.flatten ++ List.replicate m []
+
+/-- … is FALSE (the mangled record above, checksum ≡ 0). -/
+theorem truncate_pure_prefix_false_witness : ¬ truncate_pure_prefix_full := by
+  intro h
+  obtain ⟨h1, h2⟩ := truncate_mangled_witness (fun _ => 0) rfl
+  obtain ⟨m, hm⟩ := h 16 2 (fun _ => 0) (by unfold WF; omega) [[[1, 2, 3, 4, 5, 6, 7, 8, 9, 10, 11, 12]]] 0 17
+    (by rw [h1]; simp)
+  rw [h1, h2] at hm
+  obtain ⟨t, ht⟩ := hm
+  simp at ht
+
+/-! ### One damaged byte inside a checksummed payload -/
+
+/-- **Payload damage is detected** (under the explicit hypothesis `CrcDetects1 crc`: changing one byte
+    of a payload changes its checksum).  Let the intact read, after the bytes `A` and whatever follows
+    them, stand in state `st` having returned `out`, in front of a fragment `typ`/`d`.  With one payload
+    byte of that fragment changed on disk the reader returns exactly `out` — the records completed before
+    the damaged fragment — then a checksum error at the end of that fragment, nothing after it; and `out`
+    is a prefix of what the intact log returns. -/
+theorem payload_damage_detected (ps : Nat) (crc : Crc) (hdet : CrcDetects1 crc)
+    (A B d d' : Bytes) (typ : UInt8) (st : RState) (out : List Bytes)
+    (hA : ∀ X, rloop ps crc RState.init (A ++ X) = prep out (rloop ps crc st X))
+    (hty : DataTyp typ) (hlen : d.length ≤ ps - 7) (h16 : d.length < 65536) (hd : OneByteDiff d d') :
+    rloop ps crc RState.init (A ++ (damagedFrame crc typ d d' ++ B)) =
+        (out, .err .crc (st.total + 7 + d.length)) ∧
+      out <+: (rloop ps crc RState.init (A ++ (frame crc typ d ++ B))).1 :=
+  payload_damage_prefix ps crc hdet A B d d' typ st out hA hty hlen h16 hd
+
+/-- The boundary hypothesis `hA` holds behind any whole records as the writer lays them out (`Reads`,
+    the invariant of every log prefix): exactly those records, then the checksum error. -/
+theorem payload_damage_detected_after_records (ps : Nat) (crc : Crc) (hdet : CrcDetects1 crc)
+    (A B d d' : Bytes) (typ : UInt8) (a : Nat) (out : List Bytes) (hA : Reads ps crc 0 A a out)
+    (hty : DataTyp typ) (hlen : d.length ≤ ps - 7) (h16 : d.length < 65536) (hd : OneByteDiff d d') :
+    rloop ps crc RState.init (A ++ (damagedFrame crc typ d d' ++ B)) =
+      (out, .err .crc (A.length + 7 + d.length)) :=
+  payload_damage_after_records ps crc hdet A B d d' typ a out hA hty hlen h16 hd
+
+/-- The hypotheses are satisfiable: the first fragment of a log written with a detecting checksum. -/
+example (crc : Crc) (h : CrcDetects1 crc) :
+    rloop 32768 crc RState.init ([] ++ (damagedFrame crc recFull [1, 2, 3] [1, 9, 3] ++ [])) =
+      ([], .err .crc (0 + 7 + 3)) :=
+  (payload_damage_detected 32768 crc h [] [] [1, 2, 3] [1, 9, 3] recFull RState.init []
+    (fun X => by simp [prep]) (Or.inl rfl) (by decide) (by decide)
+    ⟨rfl, 1, by decide, by decide, fun j hj => by
+      match j with
+      | 0 => rfl
+      | 1 => exact absurd rfl hj
+      | 2 => rfl
+      | (_ + 3) => rfl⟩).1
 
 end Prom.C13
